@@ -460,6 +460,42 @@ def check_c05(case):
     return Outcome(nontrivial=nontriv, outcome="c05", fails=fails, transitions=n)
 
 
+def check_template_forms(case):
+    """the same template handed over as reaction string, as ITS graph and as SynRule object gives the same reactions"""
+    from synkit.Rule.syn_rule import SynRule
+    from synkit.Synthesis.Reactor.syn_reactor import SynReactor
+
+    rid, s = case
+    kw = mode_kwargs(rid)
+    fails = []
+    n = 0
+    rc, pc = sides(s)
+    tpls = templates_of(s)
+    nontriv = False
+    for invert in (False, True):
+        sub = pc if invert else rc
+        for kind in ("centre", "full"):
+            g = tpls[kind]
+            sr = SynReactor(sub, g, invert=invert, strategy="bt", **kw)
+            if len(sr.mappings) > MAX_MATCHES:
+                continue
+            ref = result_set(sr.smarts_list)
+            nontriv = nontriv or bool(ref)
+            forms = {"synrule_object": lambda: SynRule(g, implicit_h=not kw)}
+            if kind == "full":
+                forms["reaction_string"] = lambda: s
+            for fname, mk in forms.items():
+                try:
+                    got = result_set(SynReactor(sub, mk(), invert=invert, strategy="bt", **kw).smarts_list)
+                except Exception as e:
+                    got = f"{type(e).__name__}: {e}"
+                n += 1
+                if got != ref:
+                    fails.append(Fail("template_form_changes_results", f"{kind} {'bwd' if invert else 'fwd'} template as {fname}: {len(got) if not isinstance(got, str) else got} results vs {len(ref)} with the ITS graph",
+                                      "same set of distinct reactions", key_extra=f"{kind},{'bwd' if invert else 'fwd'},{fname}"))
+    return Outcome(nontrivial=nontriv, outcome="forms", fails=fails, transitions=n)
+
+
 def multi_component(rsmi: str, invert: bool) -> bool:
     """does the centre pattern (left side of the applied rule) have more than one connected component?"""
     return centre_pattern_components(rsmi, invert) > 1
@@ -639,7 +675,10 @@ def c04_subs(tier, seed):
 
 def c05_subs(tier, seed):
     setup(tier, seed)
-    return [Sub("representations", gen_rxn, check_c05, key=lambda c: c[0], rule="representation independence")]
+    return [
+        Sub("representations", gen_rxn, check_c05, key=lambda c: c[0], rule="representation independence"),
+        Sub("template_forms", gen_rxn, check_template_forms, key=lambda c: c[0], rule="template as reaction string / ITS graph / SynRule object, centre and full, forwards and backwards"),
+    ]
 
 
 def c11_subs(tier, seed):
